@@ -240,10 +240,8 @@ func main() {
 			fmt.Printf("implementation: %s key=%s %s\nreference V3 reader: %s key=%s malformed=%v mac_valid=%v\nverdict: %s %s\n",
 				d.Impl, d.ImplKey, d.ImplMsg, d.Ref, d.RefKey, ref.Aspects, ref.MacValid, key, what)
 		}
-		if !c.GoOnly {
-			em.add(c, tree, perr, f, o, d)
-		} else {
-			st.Hit("go-only (JSON member-name case / duplicates: not claimed by the Coq model)")
+		if !em.add(c, tree, perr, f, o, d) {
+			st.Hit("go-only (nesting deeper than 64: not evaluated in Coq)")
 		}
 		if len(st.Samples) < 12 && (i%97 == 0 || key != "") {
 			st.Samples = append(st.Samples, map[string]interface{}{"family": d.Family, "name": d.Name, "doc": trunc(string(c.Doc)), "impl": d.Impl, "ref": d.Ref, "malformed": d.Aspects, "mac_valid": d.MacValid})
